@@ -419,6 +419,9 @@ func enumSigops() bool {
 		{sig: nil, pk: p2wsh, wit: [][]byte{{}, {0x30}, redeemMS}},                                           // P2WSH multisig
 		{sig: nil, pk: p2wsh, wit: [][]byte{{0xac, 0xae, 0x4c}}},                                             // P2WSH, witness script truncated after 21 sigops
 		{sig: nil, pk: p2wsh},                                                                                // P2WSH without witness
+		{sig: nil, pk: p2wpkh},                                                                               // P2WPKH without witness: 1 sigop from the spent script alone
+		{sig: pushOf(p2wpkh), pk: p2shPk},                                                                    // P2SH-P2WPKH without witness: also 1
+		{sig: nil, pk: p2wpkh, wit: [][]byte{{}}},                                                            // P2WPKH with one empty witness item
 		{sig: pushOf(p2wpkh), pk: p2shPk, wit: [][]byte{{0x30}, {0x02}}},                                     // P2SH-P2WPKH
 		{sig: pushOf(p2wsh), pk: p2shPk, wit: [][]byte{{0x30}, {0x55, 0xaf}}},                                // P2SH-P2WSH
 		{sig: append([]byte{0x61}, pushOf(p2wsh)...), pk: p2shPk, wit: [][]byte{{0xac}}},                     // nested but not push-only
